@@ -260,6 +260,13 @@ def c12(op, obs, before, after):
     for h in holders:
         if h not in cons:
             v.append('consumer %d holds allocations without a consumer record' % h)
+    if obs[0] >= 400:
+        before_rows = {c[0]: c for c in before[T_CONS]}
+        for c in after[T_CONS]:
+            b = before_rows.get(c[0])
+            if b is not None and b[:4] != c[:4]:
+                v.append('rejected request (%d) changed project/user/type of consumer %d: %r -> %r'
+                         % (obs[0], c[0], b[1:4], c[1:4]))
     if obs[0] < 300 and op[0] in ALLOC_WRITES:
         cs = [op[2]] if op[0] == 'alloc_put' else (op[2] if op[0] == 'alloc_post' else op[3])
         v_ = op[1]
